@@ -979,6 +979,14 @@ m("C20", "close-stops-monitor-inside-callback", IMPL,
   "	m.channelMonitor.ShutdownChannel(chid)\n	// Close the channel on the local transport\n	err = m.transport.CloseChannel(ctx, chid)\n	if err != nil {\n		span.RecordError(err)",
   "C20.3", "closing from inside a subscriber unsubscribes under the pubsub lock: deadlock", "seeded/C20r2b",
   more=[("// onShutdown shuts down all monitored channels. It is called when the run\n", "func (m *Monitor) ShutdownChannel(chid datatransfer.ChannelID) {\n	m.lk.RLock()\n	ch, ok := m.channels[chid]\n	m.lk.RUnlock()\n	if ok {\n		ch.Shutdown()\n	}\n}\n\n// onShutdown shuts down all monitored channels. It is called when the run\n", CM)])
+m("C20", "cancel-request-reaches-manager-under-lock", GS,
+  "		if dtRequest.IsCancel() {\n			hookActions.TerminateWithError(errors.New(\"graphsync request cannot carry a cancel request\"))\n			return\n		}\n",
+  "",
+  "C20.3", "a cancel request in a graphsync request makes the hook re-acquire the channel lock it holds (D5)", "fix/D5")
+m("C20", "cancel-refusal-inverted", GS,
+  "		if dtRequest.IsCancel() {\n			hookActions.TerminateWithError(errors.New(\"graphsync request cannot carry a cancel request\"))",
+  "		if !dtRequest.IsCancel() {\n			hookActions.TerminateWithError(errors.New(\"graphsync request cannot carry a cancel request\"))",
+  "C20.3", "only cancel requests reach the manager under the channel lock")
 m("C20", "channels-for-peer-relocks", GS,
   "			if t.dtChannels[chid] != nil && t.dtChannels[chid].requestID != nil && (*t.dtChannels[chid].requestID) == requestID {",
   "			ch, err := t.getDTChannel(chid)\n			if err == nil && ch.requestID != nil && (*ch.requestID) == requestID {",
